@@ -28,6 +28,8 @@ type Solver struct {
 	transcript  strings.Builder
 	SampleEvery int
 	Samples     []DiffSample
+	// the process is started at the first query; text sent before that is kept here
+	pend strings.Builder
 }
 
 // DiffSample is one complete, self-contained query with the answer of the main solver.
@@ -45,8 +47,16 @@ func NewSolver(argv ...string) *Solver {
 		f, _ := os.OpenFile(p, os.O_CREATE|os.O_WRONLY|os.O_APPEND, 0o644)
 		s.log = f
 	}
-	s.start()
 	return s
+}
+
+// ensure starts the solver process (paths without symbolic branches never need one).
+func (s *Solver) ensure() {
+	if s.cmd == nil {
+		s.start()
+		io.WriteString(s.in, s.pend.String())
+		s.pend.Reset()
+	}
 }
 
 func (s *Solver) start() {
@@ -58,9 +68,8 @@ func (s *Solver) start() {
 		panic(err)
 	}
 	s.cmd, s.in, s.out = cmd, in, bufio.NewReaderSize(out, 1<<16)
-	s.depth = 0
 	if strings.Contains(s.argv[0], "z3") {
-		s.Send("(set-option :timeout 20000)\n")
+		io.WriteString(s.in, "(set-option :timeout 20000)\n")
 	}
 }
 
@@ -73,7 +82,7 @@ func (s *Solver) Close() {
 	}
 }
 
-func (s *Solver) Restart() { s.Close(); s.start() }
+func (s *Solver) Restart() { s.Close(); s.depth = 0; s.pend.Reset(); s.start() }
 
 func (s *Solver) Send(x string) {
 	if s.log != nil {
@@ -81,6 +90,10 @@ func (s *Solver) Send(x string) {
 	}
 	if s.SampleEvery > 0 && s.depth > 0 {
 		s.transcript.WriteString(x)
+	}
+	if s.cmd == nil {
+		s.pend.WriteString(x)
+		return
 	}
 	io.WriteString(s.in, x)
 }
@@ -92,7 +105,13 @@ func (s *Solver) Push() {
 	s.depth++
 	s.Send("(push 1)\n")
 }
-func (s *Solver) Pop() { s.Send("(pop 1)\n"); s.depth-- }
+func (s *Solver) Pop() {
+	s.Send("(pop 1)\n")
+	s.depth--
+	if s.depth == 0 && s.cmd == nil {
+		s.pend.Reset() // a whole path went by without a query
+	}
+}
 
 func (s *Solver) readLine() string {
 	for {
@@ -120,6 +139,7 @@ func (s *Solver) Check(extra string, vars []*Term) (string, Witness) {
 		b.WriteString("(assert " + extra + ")\n")
 	}
 	b.WriteString("(check-sat)\n")
+	s.ensure()
 	s.Send(b.String())
 	res := s.readLine()
 	for strings.HasPrefix(res, "(error") {
